@@ -67,6 +67,10 @@ Example C08_re_ex_date :
   rx_scan_date rx_DATE_PATTERN [50;48;50;48;45;48;49;45;51;49;84] = Some (mkdate 2020 1 31, [84])
   /\ rx_scan_date rx_DATE_PATTERN [50;48;50;48;45;49;45;51;49] = None.
 Proof. vm_compute. auto. Qed.
+Example C08_re_ex_inbase :
+  rx_scan_date rx_inbase_date [50;48;50;48;45;48;49;45;51;49] = Some (mkdate 2020 1 31, [])
+  /\ rx_scan_time rx_inbase_time [49;50;58;51;52;58;53;54] = Some (12, 34, 56, None, []).
+Proof. vm_compute. auto. Qed.
 Example C08_re_ex_time :
   rx_scan_time rx_TIME_PATTERN [49;50;58;51;52;58;53;54;46;53;48;90] = Some (12, 34, 56, Some [53;48], [90]).
 Proof. vm_compute. reflexivity. Qed.
